@@ -253,6 +253,10 @@ def reference_routines(ctx: Ctx):
         mod = importlib.import_module(f"checks.{sib}")
         sub = Ctx(sib.upper(), ctx.repo, "quick")
         run_module(mod, sub)
+        if sub.aborted:
+            # the owning analysis could not read a routine: what it would have decided about the reference form is
+            # unknown, which must not look like "all obligations discharged" here
+            ctx.step_aborts.append(f"[{sib.upper()}] {sub.aborted}")
         for o in sub.obs:
             if "-G" in o.oid or o.severity != "violation":
                 continue
